@@ -214,3 +214,42 @@ fn c21_exact_keys() {
     }
     core::mem::forget((r, rule, msg));
 }
+
+/// One cell of the path_namespace semantics: namespace fixed, message path = every valid object path of up to 4 bytes.
+macro_rules! ns_cell {
+    ($h:ident, $ns:expr) => {
+        #[kani::proof]
+        #[kani::unwind(7)]
+        #[kani::stub(alloc::fmt::format, no_format)]
+        #[kani::stub(crate::message::Message::header, fake_header)]
+        #[kani::stub(crate::message::Message::message_type, fake_type)]
+        fn $h() {
+            let buf: [u8; 4] = kani::any();
+            let len: usize = kani::any();
+            kani::assume(len >= 1 && len <= 4);
+            let buf: &'static [u8; 4] = Box::leak(Box::new(buf));
+            kani::assume(valid_path(&buf[..len]));
+            let path: &'static str = unsafe { core::str::from_utf8_unchecked(&buf[..len]) };
+            let ns: &'static str = $ns;
+            let mut f = Fields::new();
+            f.path = Some(ObjectPath::from_static_str_unchecked(path));
+            unsafe {
+                FAKE_FIELDS = Some(f);
+                FAKE_TYPE = Type::Signal;
+            }
+            let mut rule = empty_rule();
+            rule.path_spec = Some(PathSpec::PathNamespace(ObjectPath::from_static_str_unchecked(ns)));
+            let msg = placeholder_message();
+            let r = rule.matches(&msg);
+            let want = spec_in_namespace(path.as_bytes(), ns.as_bytes());
+            kani::cover!(want, "inside the namespace");
+            kani::cover!(!want, "outside the namespace");
+            match &r {
+                Ok(got) => assert!(*got == want, "path_namespace does not select the path itself or the paths below it"),
+                Err(_) => assert!(false, "matches() failed"),
+            }
+            core::mem::forget((r, rule, msg));
+        }
+    };
+}
+ns_cell!(c21_ns_a, "/a");
